@@ -1,16 +1,16 @@
 SPECIFICATION Spec
 CONSTANTS
   Keys = {1}
-  Clients = {1, 2}
-  MaxSize = 2
-  Costs = {1, 2}
-  TTLs = {0, 1}
-  QCap = 2
+  Clients = {1, 2, 3}
+  MaxSize = 1
+  Costs = {1}
+  TTLs = {0}
+  QCap = 1
   BatchMax = 2
-  MaxEnt = 2
-  MaxTime = 2
+  MaxEnt = 3
+  MaxTime = 1
   OpsPerClient = 2
-  Allowed <- AllowAcct
+  Allowed <- AllowClose
   WithTicker = TRUE
   Thresh = 30
   AdvSteps = {1}
@@ -22,4 +22,5 @@ CONSTANTS
   FixD16 = TRUE
   FixD10a = TRUE
 VIEW view
-INVARIANTS TypeOK AcctInv NotifInv NotifComplete NoBadC06
+INVARIANTS TypeOK
+CHECK_DEADLOCK TRUE
